@@ -117,23 +117,47 @@ def P_diag(um, lams):
     return np.asarray(um.gradient([F.copy(), np.zeros((nst, 1, 1)) if nst else None])[0], float)[:, :, 0, 0]
 
 
+def root_near_one(g):
+    """root of g closest to 1 (the physically relevant branch): bracket by scanning outward from 1"""
+    g1 = g(1.0)
+    if g1 == 0:
+        return 1.0
+    for k in range(1, 60):
+        for t in (1.0 + 0.02 * k, 1.0 - 0.02 * k):
+            if t <= 0.05:
+                continue
+            gt = g(t)
+            if gt == 0:
+                return t
+            if gt * g1 < 0:
+                return brentq(g, min(1.0, t), max(1.0, t), xtol=1e-13)
+    raise ValueError("no homogeneous solution found near 1")
+
+
 def solve_transverse(um, mode, l1, l2=None):
     """stretches of the homogeneous solution: mode 'uniaxial' (P22 = P33 = 0, l2 = l3), 'planestrain-uniaxial'
     (l3 = 1, P22 = 0), 'biaxial' (l1, l2 given, P33 = 0), 'planar' (l2 = 1, P33 = 0)."""
     if mode == "uniaxial":
         g = lambda t: P_diag(um, [l1, t, t])[1, 1]  # noqa
-        t = brentq(g, 0.3, 2.5, xtol=1e-13)
+        t = root_near_one(g)
         return [l1, t, t]
     if mode == "planestrain-uniaxial":
         g = lambda t: P_diag(um, [l1, t, 1.0])[1, 1]  # noqa
-        return [l1, brentq(g, 0.3, 2.5, xtol=1e-13), 1.0]
+        return [l1, root_near_one(g), 1.0]
     if mode == "biaxial":
         g = lambda t: P_diag(um, [l1, l2, t])[2, 2]  # noqa
-        return [l1, l2, brentq(g, 0.2, 3.0, xtol=1e-13)]
+        return [l1, l2, root_near_one(g)]
     if mode == "planar":
         g = lambda t: P_diag(um, [l1, 1.0, t])[2, 2]  # noqa
-        return [l1, 1.0, brentq(g, 0.2, 3.0, xtol=1e-13)]
+        return [l1, 1.0, root_near_one(g)]
     raise KeyError(mode)
+
+
+def try_solve(um, mode, l1, l2=None):
+    try:
+        return solve_transverse(um, mode, l1, l2)
+    except ValueError:
+        return None
 
 
 LOAD = ["uniaxial-3d", "uniaxial-planestrain", "biaxial-3d"]
@@ -195,12 +219,16 @@ def load_check(name, case, rec):
         step = fem.Step([body], ramp={track: np.array(ramp)}, boundaries=bounds)
         mode = "uniaxial" if dim == 3 else "planestrain-uniaxial"
     else:
-        a2 = (axis + 1) % 3
+        a2 = (axis + (1 if case["jseed"] % 2 else 2)) % 3
         move2 = case["ramp2"] * float(size[a2])
-        bounds, lc = fem.dof.biaxial(fc, moves=(0.0, move2), axes=(axis, a2), clampes=(False, False), sym=True)
+        symb = [True] * 3
+        if not case["sym_axis"]:
+            symb[a2] = False  # the second axis is loaded on both end faces: left face by -move, right face by +move
+        bounds, lc = fem.dof.biaxial(fc, moves=(0.0, move2), axes=(axis, a2), clampes=(False, False), sym=tuple(symb))
         track = bounds[f"move-right-{axis}"]
         step = fem.Step([body], ramp={track: np.array(ramp)}, boundaries=bounds)
         mode = "biaxial"
+        rec.label("biaxial-both-faces" if not symb[a2] else "biaxial-symmetric")
     job = fem.CharacteristicCurve([step], boundary=track)
     try:
         job.evaluate(tol=1e-10)
@@ -213,14 +241,22 @@ def load_check(name, case, rec):
     for x, y, v in zip(job.x, job.y, ramp):
         l1 = 1 + v / L
         if mode == "biaxial":
-            lam = solve_transverse(um, mode, l1, 1 + case["ramp2"])
+            # second axis: right face +move; if it has no symmetry plane the left face moves by -move (code) or
+            # -move/2 (docstring wording): both total stretches are admissible
+            l2s = [1 + case["ramp2"]] if case["sym_axis"] else [1 + 2 * case["ramp2"], 1 + 1.5 * case["ramp2"]]
+            cands = [c_ for c_ in (try_solve(um, mode, l1, l2) for l2 in l2s) if c_ is not None]
         else:
-            lam = solve_transverse(um, mode, l1)
-        # order the stretches by axis
-        P = P_diag(um, lam)
-        ref = P[0, 0] * A0
-        scale = max(abs(ref), A0 * modulus)  # force scale: reference area times the initial stiffness
-        worst_f = max(worst_f, abs(np.asarray(y)[axis] - ref) / scale)
+            cands = [c_ for c_ in [try_solve(um, mode, l1)] if c_ is not None]
+        if not cands:
+            rec.reject("the material has no homogeneous solution at this stretch (e.g. Saint-Venant Kirchhoff in strong tension)")
+            return
+        errs_ = []
+        for lam in cands:
+            P = P_diag(um, lam)
+            ref = P[0, 0] * A0
+            scale = max(abs(ref), A0 * modulus)  # force scale: reference area times the initial stiffness
+            errs_.append(abs(np.asarray(y)[axis] - ref) / scale)
+        worst_f = max(worst_f, min(errs_))
         worst_x = max(worst_x, abs(np.asarray(x)[axis] - v))
     rec.close("job.y=P*A0", worst_f, 1e-6, {"material": case["mat"]["name"], "mode": mode})
     rec.close("job.x=ramp", worst_x, 1e-14)
@@ -228,9 +264,15 @@ def load_check(name, case, rec):
     rec.close("F-uniform", float(np.abs(F - F[..., :1, :1]).max()), 1e-7)
     # final transverse stretch equals the analytic one
     l1 = 1 + ramp[-1] / L
-    lam = solve_transverse(um, mode, l1, 1 + case["ramp2"]) if mode == "biaxial" else solve_transverse(um, mode, l1)
     got = sorted(np.linalg.eigvalsh(F[..., 0, 0].T @ F[..., 0, 0]) ** 0.5)
-    rec.close("stretches=analytic", float(np.abs(np.array(got) - np.array(sorted(lam))).max()), 1e-7)
+    if mode == "biaxial":
+        l2s = [1 + case["ramp2"]] if case["sym_axis"] else [1 + 2 * case["ramp2"], 1 + 1.5 * case["ramp2"]]
+        cands = [c_ for c_ in (try_solve(um, mode, l1, l2) for l2 in l2s) if c_ is not None]
+    else:
+        cands = [c_ for c_ in [try_solve(um, mode, l1)] if c_ is not None]
+    if not cands:
+        return
+    rec.close("stretches=analytic", min(float(np.abs(np.array(got) - np.array(sorted(lam))).max()) for lam in cands), 1e-7)
 
 
 # ---------------------------------------------------------------------------------------------------------------
